@@ -157,13 +157,13 @@ func driveMSM(c *ctx) {
 			p *secp256k1.Point
 		}
 		cases := [][]sp{
-			{{s, P}, {new(big.Int).Sub(bigN, s), P}},                             // s P - s P
-			{{s, P}, {s, neg(P)}},                                                // s P + s (-P)
-			{{s, P}, {s, P}},                                                     // doubling of equal partial sums
-			{{s, P}, {big.NewInt(1), G}, {new(big.Int).Sub(bigN, s), P}},         // through the identity mid-way
-			{{big.NewInt(1), P}, {big.NewInt(1), P}, {add(bigN, -2), P}},         // sums to the identity
-			{{big.NewInt(0), P}, {big.NewInt(0), G}},                             // all-zero scalars
-			{{s, secp256k1.NewIdentityPoint()}, {s, idRep(big.NewInt(3))}},       // all-identity points
+			{{s, P}, {new(big.Int).Sub(bigN, s), P}}, // s P - s P
+			{{s, P}, {s, neg(P)}},                    // s P + s (-P)
+			{{s, P}, {s, P}},                         // doubling of equal partial sums
+			{{s, P}, {big.NewInt(1), G}, {new(big.Int).Sub(bigN, s), P}},   // through the identity mid-way
+			{{big.NewInt(1), P}, {big.NewInt(1), P}, {add(bigN, -2), P}},   // sums to the identity
+			{{big.NewInt(0), P}, {big.NewInt(0), G}},                       // all-zero scalars
+			{{s, secp256k1.NewIdentityPoint()}, {s, idRep(big.NewInt(3))}}, // all-identity points
 		}
 		for _, cs := range cases {
 			for _, k := range kinds {
